@@ -79,7 +79,7 @@ func init() { register("C16", "exploration", runC16) }
 func runC16(ctx *core.Ctx) {
 	ctx.Rule("all (u,v) in [0,N)^2 in canonical form (N=96 quick, 256 thorough); all ordered pairs of forms of alphabet F (value x representation); u=0 / v=0 against all forms; receiver aliased to u, to v, distinct, and u,v the same pointer. distinct_nontrivial = distinct returned roots; the four contract classes are counted separately")
 	ctx.Assume("math/big ModSqrt/Exp are correct")
-	N := tierN(ctx, 96, 256)
+	N := sz(ctx, 96, 256, 600)
 	subC16.Run(ctx, N*N, func(i int) sqrtCase {
 		return sqrtCase{U: elemIn{alpha.CanonLimbs(big.NewInt(int64(i / N)))}, V: elemIn{alpha.CanonLimbs(big.NewInt(int64(i % N)))}, Alias: i % 3}
 	})
